@@ -183,6 +183,10 @@ def m_set(it, fr, x=()):
 
 
 def m_sum(it, fr, x, start=0):
+    if isinstance(x, SSeq) and z3.is_app(x.arr) and x.arr.decl().kind() == z3.Z3_OP_CONST_ARRAY and x.ek in ('int', 'real'):
+        # a constant sequence (c, c, ..., c): n * c   (n >= 0 is the length)
+        c = x.arr.arg(0)
+        return ops.binop('+', start, ops.mk((z3.ToReal(x.n) if x.ek == 'real' else x.n) * c, x.ek))
     if isinstance(x, SSeq):
         j = z3.Int('j!su')
         if x.ek == 'real':
